@@ -30,6 +30,17 @@ pub struct C12;
 
 const V4: IpAddr = IpAddr::V4(Ipv4Addr::new(192, 0, 2, 10));
 const V6: IpAddr = IpAddr::V6(Ipv6Addr::new(0x2001, 0xdb8, 0, 0, 0, 0, 0, 0x10));
+/// an IPv4 host written as an IPv6 address (::ffff:192.0.2.10): an IPv6 destination like any other
+const V6_MAPPED: IpAddr = IpAddr::V6(Ipv6Addr::new(0, 0, 0, 0, 0, 0xffff, 0xc000, 0x020a));
+
+/// One IPv6 destination in four is an IPv4-mapped one.
+fn v6(t: &mut Tape) -> IpAddr {
+    if t.draw(CFG, 4) == 0 {
+        V6_MAPPED
+    } else {
+        V6
+    }
+}
 
 const FAMILIES: u64 = 16;
 
@@ -252,7 +263,7 @@ impl C12 {
     fn transport_case(&self, mut t: Tape, detail: bool) -> (CaseOut, Tape) {
         let mut out = CaseOut::default();
         let tcp = t.draw(CFG, 2) == 1;
-        let ip = if t.draw(CFG, 2) == 0 { V4 } else { V6 };
+        let ip = if t.draw(CFG, 2) == 0 { V4 } else { v6(&mut t) };
         let port = 1024 + t.draw(CFG, 60_000) as u16;
         let addr = SocketAddr::new(ip, port);
         let n_out = if tcp { size_choice(&mut t).max(1) } else { size_choice(&mut t) };
@@ -370,7 +381,7 @@ impl Prop for C12 {
         }
         let mut out = CaseOut::default();
         let fam_sel = (idx / 4) % FAMILIES;
-        let ip = if t.draw(CFG, 3) == 0 { V6 } else { V4 };
+        let ip = if t.draw(CFG, 3) == 0 { v6(&mut t) } else { V4 };
         let port = 1024 + t.draw(CFG, 60_000) as u16;
         let (ts, read_ns, connect_ns, retries) = timeout_choice(&mut t);
         let mut w = World::new(Tape::replay(Default::default()));
